@@ -143,6 +143,47 @@ fn ref_doc(payload: &[u8], w_block: usize, w_clu: usize, w_seg: usize) -> Vec<u8
     v
 }
 
+/// The giant document as the writer laid it out: Segment[ Cluster[ Block(p bytes), Count ], TrackType ] with known sizes of
+/// any width, each equal to the real extent of its content.
+fn walk_giant(b: &[u8], p: usize) -> Result<(), String> {
+    fn hdr(b: &[u8], off: usize, want: u64) -> Result<(usize, u64), String> {
+        if off >= b.len() {
+            return Err(format!("output ends at {} where element {:x} should start", off, want));
+        }
+        match dec_id(&b[off..]) {
+            Dec::Ok(id, il) if id == want => match dec_size(&b[off + il..]) {
+                Dec::Ok(RSize::Known(v), sl) => Ok((il + sl, v)),
+                Dec::Ok(RSize::Unknown, sl) => Err(format!("element {:x} at {}: its {}-byte size field is the reserved unknown-size pattern although the element was written with a known size", want, off, sl)),
+                _ => Err(format!("element {:x} at {}: size field does not decode", want, off)),
+            },
+            Dec::Ok(id, _) => Err(format!("element {:x} found at {} where {:x} was written", id, off, want)),
+            _ => Err(format!("no id decodes at {}", off)),
+        }
+    }
+    let (h_seg, s_seg) = hdr(b, 0, SEG)?;
+    if h_seg as u64 + s_seg != b.len() as u64 {
+        return Err(format!("Segment declares {} bytes but {} follow its header", s_seg, b.len() - h_seg));
+    }
+    let o_clu = h_seg;
+    let (h_clu, s_clu) = hdr(b, o_clu, CLU)?;
+    let o_blk = o_clu + h_clu;
+    let (h_blk, s_blk) = hdr(b, o_blk, BLOCK)?;
+    if s_blk != p as u64 {
+        return Err(format!("Block declares {} bytes, {} were written", s_blk, p));
+    }
+    let o_cnt = o_blk + h_blk + p;
+    let (h_cnt, s_cnt) = hdr(b, o_cnt, COUNT)?;
+    let end_clu = o_cnt + h_cnt + s_cnt as usize;
+    if (o_clu + h_clu) as u64 + s_clu != end_clu as u64 {
+        return Err(format!("Cluster declares {} bytes but its content is {} bytes", s_clu, end_clu - o_clu - h_clu));
+    }
+    let (h_tt, s_tt) = hdr(b, end_clu, TT)?;
+    if end_clu + h_tt + s_tt as usize != b.len() {
+        return Err(format!("output has {} bytes, the elements account for {}", b.len(), end_clu + h_tt + s_tt as usize));
+    }
+    Ok(())
+}
+
 fn first_diff(a: &[u8], b: &[u8]) -> Option<usize> {
     if a.len() == b.len() && a == b {
         return None;
@@ -169,7 +210,12 @@ pub fn run_giant(c: &mut Case, prop: &str, which: u64) {
         let bytes = match write_all(&tags) {
             Ok(b) => b,
             Err(e) => {
-                c.violation(format!("C01/giant/{}/writer-failed", label), e.clone(), wit(&e, &[]));
+                // conditional on acceptance (a panic is reported by write_all as an Err carrying the panic text)
+                if e.contains("PANIC") || e.contains("panic") {
+                    c.violation(format!("C01/giant/{}/writer-failed", label), e.clone(), wit(&e, &[]));
+                } else {
+                    c.count("vacuous_giant_writer_rejected");
+                }
                 return;
             }
         };
@@ -177,17 +223,12 @@ pub fn run_giant(c: &mut Case, prop: &str, which: u64) {
             DVal::B(b) => b,
             _ => unreachable!(),
         };
-        // reference: every default-width size field is the minimal non-reserved width
-        let clu_content = (1 + ref_width(p as u64) + p + 4) as u64;
-        let seg_content = 4 + ref_width(clu_content) as u64 + clu_content + 3;
-        let want = ref_doc(payload, ref_width(p as u64), ref_width(clu_content), ref_width(seg_content));
-        if let Some(k) = first_diff(&bytes, &want) {
-            let msg = format!("writer output ({} bytes) differs from the reference encoding ({} bytes) at byte {}: writer {} vs reference {}", bytes.len(), want.len(), k, hex(&bytes[k.saturating_sub(4)..(k + 12).min(bytes.len())]), hex(&want[k.saturating_sub(4)..(k + 12).min(want.len())]));
-            drop(want);
-            c.violation(format!("C01/giant/{}/bytes-differ-from-reference", label), msg.clone(), wit(&msg, &bytes));
+        // Structure, whatever size-field widths the writer chose by default (no property pins them): every declared
+        // size is a known size and describes exactly the content that follows.
+        if let Err(msg) = walk_giant(&bytes, p) {
+            c.violation(format!("C01/giant/{}/sizes-do-not-describe-the-content", label), msg.clone(), wit(&msg, &bytes));
             return;
         }
-        drop(want);
         match read_all(&bytes).and_then(|t| check_items(&t, payload)) {
             Ok(()) => {}
             Err(e) => {
@@ -219,14 +260,9 @@ pub fn run_giant(c: &mut Case, prop: &str, which: u64) {
             }
         };
         drop(t1);
-        // the boundary header as re-written must decode to the same known size
-        let off = if kind_m { seg_hdr_len(&out) } else { seg_hdr_len(&out) + clu_hdr_len(&out) };
-        let hdr_ok = match (dec_id(&out[off..]), ()) {
-            (Dec::Ok(_, il), _) => matches!(dec_size(&out[off + il..]), Dec::Ok(RSize::Known(v), _) if v == n),
-            _ => false,
-        };
-        if !hdr_ok {
-            let msg = format!("re-written header at {} does not declare the known size {}: {}", off, n, hex(&out[off..(off + 14).min(out.len())]));
+        // the re-written stream, whatever widths the writer chose: every declared size is a known size and describes
+        // exactly what follows (the boundary size 2^28-1 must not come out as the reserved pattern of a 4-byte field)
+        if let Err(msg) = walk_giant(&out, p) {
             c.violation(format!("C02/giant/{}/rewritten-size-field", label), msg.clone(), wit(&msg, &out));
             return;
         }
